@@ -38,6 +38,10 @@ func init() {
 				if sig == nil || sig.Results().Len() != 1 || !types.Identical(sig.Results().At(0).Type(), types.Universe.Lookup("error").Type()) {
 					continue
 				}
+				// a guard takes the text it bounds and nothing else: func(string) error
+				if sig.Recv() != nil || sig.Params().Len() != 1 || types.TypeString(sig.Params().At(0).Type(), nil) != "string" {
+					continue
+				}
 				// bound comparisons: `if <int expr> > const { return err }` inside a loop
 				type bound struct {
 					ifs  *ast.IfStmt
